@@ -200,7 +200,8 @@ def sem : Nat → Ctx → Task → Env → Res
       else some (.norm, e1)
     | some r => some r
   | n + 1, k, .loop u c b acc, e =>
-    match seqList (fun st => sem n { k with ign := true } (.stmt st)) c e with
+    -- the condition list already counts as inside the loop for `break`/`continue`
+    match seqList (fun st => sem n { k with ign := true, depth := k.depth + 1 } (.stmt st)) c e with
     | none => none
     | some (.norm, e1) =>
       if (e1.status == 0) == u then some (.norm, { e1 with status := acc })
@@ -211,7 +212,10 @@ def sem : Nat → Ctx → Task → Env → Res
           match afterBody fl with
           | (true, fl') => some (fl', e2)
           | (false, _) => sem n k (.loop u c b e2.status) e2
-    | some r => some r
+    | some (fl, e1) =>
+      match afterBody fl with
+      | (true, fl') => some (fl', e1)
+      | (false, _) => sem n k (.loop u c b e1.status) e1
   | n + 1, k, .cmd c, e =>
     let list (k' : Ctx) (p : Prog) (e' : Env) : Res := seqList (fun st => sem n k' (.stmt st)) p e'
     match c with
